@@ -26,10 +26,19 @@ def parseAddr (s : String) : Addr :=
 def parseTBit (s : String) : TBit :=
   if s == "-" then TBit.one else if s == "1" then ⟨true, true⟩ else if s == "0" then ⟨false, true⟩ else ⟨false, false⟩
 
+/-- an input pin of the design: kind a(ddress) d(ata) e (IF condition of a write) r (ENIF enable of read registers) -/
+structure PinDecl where
+  kind : String
+  port : Nat
+  sub : Nat
+  width : Nat
+
 structure PortCfg where
   isWrite : Bool
   cond : Bool := false
   rmw : Bool := false
+  rmwIdx : Option Nat := none   -- write data = data pin xor the (asynchronous) read data of that earlier read port
+  shareIdx : Option Nat := none -- the address is the address pin of that earlier port
   share : Bool := false
   outXor : String := "-"
   rdEn : Bool := false          -- some read latency register sits under an enable scope
@@ -53,6 +62,10 @@ structure Case where
   resetCycles : Nat := 0
   memreset : Bool := false
   asyncReset : Bool := false
+  initNet : Bool := false
+  extraReset : Nat := 0
+  rcModel : Nat := 0          -- number of reset cycles predicted from the configuration (never taken from the implementation)
+  pins : Array PinDecl := #[]
   initMem : Bool := true      -- ClockConfig::initializeMemory of the (write) clock
   initRegs : Bool := true
   rmwEn : Bool := false
@@ -79,6 +92,7 @@ structure Stats where
   diffs : Nat := 0
   propfails : Nat := 0
   asyncCmp : Nat := 0
+  portInCmp : Nat := 0     -- Node_MemPort input values compared with their derivation from the stimulus
   preCmp : Nat := 0
   postCmp : Nat := 0
   rawCollisions : Nat := 0   -- read of an address written earlier in the same cycle (enabled)
@@ -156,6 +170,84 @@ def xorW (a k : String) : String :=
   if k == "-" || k == "" then a else
   String.ofList (List.zipWith (fun x y => if x == 'x' then 'x' else if x == y then '0' else '1') a.toList k.toList)
 
+def pinVal (pins : List PinDecl) (stim : List String) (kind : String) (port sub : Nat) : Option String :=
+  ((pins.zip stim).find? fun (p, _) => p.kind == kind && p.port == port && p.sub == sub).map (·.2)
+
+/-- what `MemoryPortFactory` (frontend/Memory.h:50-62) makes of an address signal: the lower `aw` bits, or zero extension -/
+def fitAddr (aw : Nat) (v : String) : String :=
+  if aw == 0 then "-" else
+  let l := v.toList
+  if l.length ≥ aw then String.ofList (l.drop (l.length - aw)) else String.ofList (List.replicate (aw - l.length) '0' ++ l)
+
+/-- four-state AND of two bits / XOR of two words (Node_Logic) -/
+def and4 (a b : String) : String := if a == "0" || b == "0" then "0" else if a == "1" && b == "1" then "1" else "x"
+def xor4 (a b : String) : String :=
+  String.ofList (List.zipWith (fun x y => if x == 'x' || y == 'x' then 'x' else if x == y then '0' else '1') a.toList b.toList)
+
+/-- two-valued, in-range view of derived controls -/
+def addrOk (cfg : Cfg) (a : Addr) : Bool := a.full cfg.aw && a.val < cfg.depth
+
+/-- **The port inputs of one cycle, derived from the applied stimulus and the declared program only** (ports in DECLARATION order):
+the tokens expected at the inputs of each port's Node_MemPort (R: enable address | W: enable wrEnable address data), the model's
+port inputs and — while all controls are defined and in range — the specification's operations.  Address: the port's (or the shared)
+address pin through `fitAddr`; write enable: the IF condition pin and-ed with the ENIF enable the write was declared under (`enof`),
+unconnected if neither; write data: the data pin, xor-ed with the asynchronous read data of read port `rmw` — taken from the model
+run on the ports declared so far for the model, from `ArrMem` run on the operations so far for the specification. -/
+def derivePorts (ops : WordOps W) (cfg : Cfg) (mem : List W) (spec : ArrMem W) (ports : List PortCfg) (pins : List PinDecl) (stim : List String) :
+    List String × List (PortIn W) × Option (List (Op W)) := Id.run do
+  let mut toks : List String := []
+  let mut mports : List (PortIn W) := []
+  let mut sops : Option (List (Op W)) := some []
+  for p in ports do
+    let owner := p.shareIdx.getD p.idx
+    let aTok := fitAddr cfg.aw ((pinVal pins stim "a" owner 0).getD "")
+    let a := parseAddr aTok
+    let readPos (j : Nat) := (ports.filter fun q => !q.isWrite && q.idx < j).length
+    if !p.isWrite then
+      toks := toks ++ ["-", aTok]
+      mports := mports ++ [.rd TBit.one a]
+      sops := sops.bind fun l => if addrOk cfg a then some (l ++ [.rd a.val]) else none
+    else
+      let d := (pinVal pins stim "d" p.idx 0).getD ""
+      let condTok := if p.cond then pinVal pins stim "e" p.idx 0 else none
+      let scopeTok := p.enOf.toNat?.bind fun r => pinVal pins stim "r" r 0
+      let weTok := match scopeTok, condTok with
+        | none, none => "-" | some x, none => x | none, some e => e | some x, some e => and4 x e
+      let dataM := match p.rmwIdx with
+        | some j => xor4 (((evalPorts ops cfg mem [] mports).2).getD (readPos j) ops.undef) d
+        | none => d
+      toks := toks ++ ["-", weTok, aTok, dataM]
+      let we := parseTBit weTok
+      mports := mports ++ [.wr TBit.one we a dataM]
+      sops := sops.bind fun l =>
+        if addrOk cfg a && we.defd then
+          let dataS := match p.rmwIdx with
+            | some j => xor4 (((ArrMem.ports ops.undef spec l).2).getD (readPos j) ops.undef) d
+            | none => d
+          some (l ++ [.wr a.val we.val dataS])
+        else none
+  return (toks, mports, sops)
+
+/-- the stage enables of every read port, from the stimulus: "-" for a stage without enable scope -/
+def deriveStageEnables (lat : Nat) (ports : List PortCfg) (pins : List PinDecl) (stim : List String) : List String :=
+  (ports.filter (!·.isWrite)).map fun p =>
+    let owner := p.enFrom.toNat?.getD p.idx
+    let sts := (List.range lat).map fun k =>
+      match (p.stEn.getD k "-").toNat? with
+      | some e => (pinVal pins stim "r" owner e).getD "x"
+      | none => "-"
+    if sts.all (· == "-") then "-" else ",".intercalate sts
+
+/-- `Clock::getMinResetCycles()` after post-processing, from the configuration: 1 for a synchronous reset with clocked nodes
+(hlim/Clock.cpp:78-90), and with memory reset logic (MemoryGroup::buildReset, MemoryDetector.cpp: needs memoryResetType != NONE, a read
+and a write port, and an initialisation network or defined power-on contents) one cycle per word, one more for the reset ROM's read
+register, one more for an asynchronous reset (:778-781, :827-830); the harness adds `extra` on top -/
+def predictResetCycles (noReset async memreset initNet : Bool) (init : String) (depth extra : Nat) (ports : List PortCfg) : Nat :=
+  if noReset then 0 else
+  let base := if async then 0 else 1
+  let logic := memreset && ports.any (·.isWrite) && ports.any (!·.isWrite) && (initNet || init != "0")
+  (if logic then max base (depth + (if initNet then 0 else 1) + (if async then 1 else 0)) else base) + extra
+
 /-- the enable condition a port of the memory runs under, from the design: "-" = none, else owner port and stage pins -/
 def PortCfg.domain (p : PortCfg) : String :=
   if p.isWrite then (if p.enOf == "-" then "-" else s!"{p.enOf}:0")
@@ -187,7 +279,7 @@ partial def loop (h : IO.FS.Stream) (c : Case) (s : Stats) : IO Stats := do
     let c : Case := { id := id, depth := (kvOf rest "depth").toNat!, width := (kvOf rest "width").toNat!, aw := (kvOf rest "aw").toNat!,
                       lat := (kvOf rest "L").toNat!, type := kvOf rest "type", init := kvOf rest "init", dev := kvOf rest "dev",
                       mode := (kvOf rest "mode").toNat!, idle := (kvOf rest "idle").toNat!, resetCycles := (kvOf rest "resetcycles").toNat!, memreset := kvOf rest "memreset" == "1",
-                      asyncReset := kvOf rest "async" == "1", wrInReset := kvOf rest "wrinreset" == "1", noReset := kvOf rest "noreset" == "1", initMem := kvOf rest "initmem" != "0", initRegs := kvOf rest "initregs" != "0", rmwEn := kvOf rest "rmwen" == "1", rcPred := (kvOf rest "rcpred").toNat! }
+                      asyncReset := kvOf rest "async" == "1", initNet := kvOf rest "initnet" == "1", extraReset := (kvOf rest "extra").toNat?.getD 0, wrInReset := kvOf rest "wrinreset" == "1", noReset := kvOf rest "noreset" == "1", initMem := kvOf rest "initmem" != "0", initRegs := kvOf rest "initregs" != "0", rmwEn := kvOf rest "rmwen" == "1", rcPred := (kvOf rest "rcpred").toNat! }
     let s := { s with cases := s.cases + 1, hist := bump (bump (bump (bump s.hist s!"type:{c.type}") s!"L:{c.lat}") s!"init:{c.init}") s!"dev:{c.dev}" }
     let s := { s with hist := bump (bump s.hist (if c.depth == 2 ^ c.aw then "depth:pow2" else "depth:nonpow2")) s!"mode:{c.mode}" }
     let s := if c.mode == 8 then { s with hist := bump (bump (bump s.hist (if c.asyncReset then "reset:async" else "reset:sync")) s!"reset-extra:{kvOf rest "extra"}")
@@ -196,7 +288,8 @@ partial def loop (h : IO.FS.Stream) (c : Case) (s : Stats) : IO Stats := do
     loop h c s
   | "port" :: _ :: kind :: rest =>
     let isW := kind == "W"
-    let p : PortCfg := { isWrite := isW, cond := kvOf rest "cond" == "1", rmw := kvOf rest "rmw" != "-" && isW, share := kvOf rest "share" != "-" }
+    let p : PortCfg := { isWrite := isW, cond := kvOf rest "cond" == "1", rmw := kvOf rest "rmw" != "-" && isW, share := kvOf rest "share" != "-",
+                         rmwIdx := if isW then (kvOf rest "rmw").toNat? else none, shareIdx := (kvOf rest "share").toNat? }
     let p := { p with outXor := if isW then "-" else kvOf rest "xor", idx := c.ports.size,
                       enFrom := if isW || kvOf rest "enfrom" == "" then "-" else kvOf rest "enfrom",
                       enOf := if !isW || kvOf rest "enof" == "" then "-" else kvOf rest "enof" }
@@ -205,7 +298,11 @@ partial def loop (h : IO.FS.Stream) (c : Case) (s : Stats) : IO Stats := do
     let p := { p with stEn := if isW || stS == "-" || stS == "" then [] else stS.splitOn "," }
     let p := { p with rdEn := kvOf rest "en" == "1" && !isW, rst := if isW || rstS == "-" || rstS == "" then [] else rstS.splitOn "," }
     loop h { c with ports := c.ports.push p } s
+  | "pin" :: _ :: kind :: rest =>
+    let d : PinDecl := { kind := kind, port := (kvOf rest "port").toNat!, sub := (kvOf rest "sub").toNat!, width := (kvOf rest "w").toNat! }
+    loop h { c with pins := c.pins.push d } s
   | "mem" :: ws =>
+    let c := { c with rcModel := predictResetCycles c.noReset c.asyncReset c.memreset c.initNet c.init c.depth c.extraReset c.ports.toList }
     let shape := String.ofList (c.ports.toList.map fun p => if p.isWrite then 'W' else 'R')
     let s := { s with hist := bump s.hist s!"ports:{shape}" }
     let s := if c.ports.toList.any (·.rmw) then { s with hist := bump s.hist "rmw-design" } else s
@@ -287,11 +384,12 @@ partial def loop (h : IO.FS.Stream) (c : Case) (s : Stats) : IO Stats := do
       s ← say s s!"post-rejected:{why}:{c.dev}" s!"PROPFAIL case={c.id} what=post-rejected reason={why} L={c.lat} type={c.type} dev={c.dev} reads={(c.ports.toList.filter (!·.isWrite)).length} writes={(c.ports.toList.filter (·.isWrite)).length}"
       c := { c with failed := true }
       s := { s with propfails := s.propfails + 1 }
-    if c.postOk && c.idle < c.resetCycles && c.mode != 7 && !c.wrInReset then
-      s ← say s "idle" s!"DIFF case={c.id} what=harness-idle-shorter-than-reset idle={c.idle} reset={c.resetCycles}"
+    if c.postOk && c.idle < c.rcModel && c.mode != 7 && !c.wrInReset then
+      s ← say s "idle" s!"DIFF case={c.id} what=harness-idle-shorter-than-reset idle={c.idle} reset={c.rcModel}"
       s := { s with diffs := s.diffs + 1 }
-    if c.postOk && c.mode == 8 && c.rcPred != c.resetCycles then
-      s ← say s "rcpred" s!"DIFF case={c.id} what=reset-cycles model={c.rcPred} impl={c.resetCycles} depth={c.depth} async={c.asyncReset}"
+    -- the number of reset cycles the post-processed design asks for is compared with the prediction, never used
+    if c.postOk && c.rcModel != c.resetCycles then
+      s ← say s "rcpred" s!"DIFF case={c.id} what=reset-cycles model={c.rcModel} impl={c.resetCycles} depth={c.depth} async={c.asyncReset} memreset={c.memreset} initnet={c.initNet} init={c.init} mode={c.mode}"
       s := { s with diffs := s.diffs + 1 }
     if c.postOk && c.lat ≥ 1 && c.ports.toList.any (·.rmw) then s := { s with hazardCases := s.hazardCases + 1 }
     if c.postOk then
@@ -303,18 +401,26 @@ partial def loop (h : IO.FS.Stream) (c : Case) (s : Stats) : IO Stats := do
   | "c" :: tStr :: ";" :: rest =>
     let t := tStr.toNat!
     let fields := splitSemi rest
-    let ren := fields.getD 4 []
+    let stim := fields.getD 5 []
     match fields.take 4 with
     | [pin, asyncR, prePins, postPins] =>
       let cfg : Cfg := ⟨c.depth, c.aw⟩
       let ops := wordOps c.width
-      match parsePorts c.ports.toList pin with
-      | none =>
-        let s ← say s "unparsed" s!"DIFF case={c.id} cycle={t} what=unparsed"
+      -- everything model and specification consume is derived from the stimulus and the declared program
+      let (expToks, ports, sopsD) := derivePorts ops cfg c.mem c.spec c.ports.toList c.pins.toList stim
+      let ren := deriveStageEnables c.lat c.ports.toList c.pins.toList stim
+      if stim.length != c.pins.size then
+        let s ← say s "unparsed" s!"DIFF case={c.id} cycle={t} what=unparsed stimulus={stim.length} pins={c.pins.size}"
         loop h { c with diffed := true } { s with diffs := s.diffs + 1 }
-      | some ports =>
+      else
         let mut c := c
         let mut s := { s with cycles := s.cycles + 1 }
+        -- the values sampled at the Node_MemPort inputs are only compared
+        s := { s with portInCmp := s.portInCmp + expToks.length, ops := s.ops + expToks.length }
+        if pin != expToks && !c.diffed then
+          s ← say s "portin" s!"DIFF case={c.id} cycle={t} what=port-inputs derived={expToks} sampled={pin} stimulus={stim}"
+          c := { c with diffed := true }
+          s := { s with diffs := s.diffs + 1 }
         -- model
         let r := cycle ops cfg c.mem ports
         s := { s with asyncCmp := s.asyncCmp + asyncR.length, ops := s.ops + asyncR.length }
@@ -324,16 +430,15 @@ partial def loop (h : IO.FS.Stream) (c : Case) (s : Stats) : IO Stats := do
           s := { s with diffs := s.diffs + 1 }
         c := { c with mem := r.1 }
         -- specification
-        let opsO := ports.map (toOp cfg)
-        if c.specOk && opsO.all Option.isSome then
-          let sops := opsO.filterMap id
+        if c.specOk && sopsD.isSome then
+          let sops := sopsD.getD []
           let (raw, ww) := collisions sops
           s := { s with rawCollisions := s.rawCollisions + raw, wwCollisions := s.wwCollisions + ww }
           let sr := ArrMem.ports ops.undef c.spec sops
           c := { c with spec := sr.1, reads := c.reads.push sr.2 }
           if c.wrInReset then
             -- after post-processing the reset logic owns the write port while the reset is asserted: writes issued then are dropped
-            let sopsP := if t < c.resetCycles then sops.map (fun o => match o with | .wr a _ d => Op.wr a false d | o => o) else sops
+            let sopsP := if t < c.rcModel then sops.map (fun o => match o with | .wr a _ d => Op.wr a false d | o => o) else sops
             let srP := ArrMem.ports ops.undef c.specPost sopsP
             c := { c with specPost := srP.1, readsPost := c.readsPost.push srP.2 }
         else
@@ -370,7 +475,7 @@ partial def loop (h : IO.FS.Stream) (c : Case) (s : Stats) : IO Stats := do
               c := { c with failed := true }
               s := { s with propfails := s.propfails + 1 }
           -- clock edge
-          let inReset := !c.noReset && t < (if c.resetCycles == 0 then 1 else c.resetCycles)
+          let inReset := !c.noReset && t < (if c.rcModel == 0 then 1 else c.rcModel)
           let newReads := c.reads[t]!
           let chains := (List.zip (List.zip c.chains.toList rports) (List.zip newReads (ren ++ List.replicate rports.length "-"))).map fun ((ch, p), (rd, e)) =>
             if inReset && !p.rst.isEmpty then p.rst
@@ -388,14 +493,14 @@ partial def loop (h : IO.FS.Stream) (c : Case) (s : Stats) : IO Stats := do
             c := { c with failed := true }
             s := { s with propfails := s.propfails + 1 }
           let expect := if c.wrInReset then List.zipWith xorW (c.readsPost[t - c.lat]!) xors else expect
-          if c.postOk && t - c.lat ≥ c.resetCycles then
+          if c.postOk && t - c.lat ≥ c.rcModel then
             s := { s with postCmp := s.postCmp + expect.length, ops := s.ops + expect.length }
             if !cmpPins expect postPins && !c.failed && c.mode == 7 then
               s ← say s "obs" s!"OBS case={c.id} cycle={t} what=write-under-reset-dropped L={c.lat} arrmem={expect} pins={postPins}"
               c := { c with failed := true }
               s := { s with resetCycleDivergences := s.resetCycleDivergences + 1 }
             if !cmpPins expect postPins && !c.failed then
-              s ← say s s!"post:{c.dev}:{c.memreset}:{c.asyncReset}:{c.depth == 2 ^ c.aw}" s!"PROPFAIL case={c.id} cycle={t} what=post L={c.lat} type={c.type} dev={c.dev} memreset={c.memreset} async={c.asyncReset} depth={c.depth} pow2={c.depth == 2 ^ c.aw} resetcycles={c.resetCycles} arrmem={expect} pins={postPins} pre_pins={prePins}"
+              s ← say s s!"post:{c.dev}:{c.memreset}:{c.asyncReset}:{c.depth == 2 ^ c.aw}" s!"PROPFAIL case={c.id} cycle={t} what=post L={c.lat} type={c.type} dev={c.dev} memreset={c.memreset} async={c.asyncReset} depth={c.depth} pow2={c.depth == 2 ^ c.aw} resetcycles={c.rcModel} arrmem={expect} pins={postPins} pre_pins={prePins}"
               c := { c with failed := true }
               s := { s with propfails := s.propfails + 1 }
         loop h c s
@@ -407,4 +512,4 @@ partial def loop (h : IO.FS.Stream) (c : Case) (s : Stats) : IO Stats := do
 def main : IO Unit := do
   let s ← loop (← IO.getStdin) {} {}
   let hist := ",".intercalate (s.hist.map fun (k, n) => s!"\"{k}\":{n}")
-  IO.println s!"SUMMARY \{\"cases\":{s.cases},\"cycles\":{s.cycles},\"ops\":{s.ops},\"diffs\":{s.diffs},\"propfails\":{s.propfails},\"async_compared\":{s.asyncCmp},\"pre_pins_compared\":{s.preCmp},\"post_pins_compared\":{s.postCmp},\"read_after_write_collisions\":{s.rawCollisions},\"write_write_collisions\":{s.wwCollisions},\"undefined_port_inputs\":{s.undefInputs},\"out_of_range_accesses\":{s.outOfRange},\"spec_skipped_cases\":{s.specSkipped},\"post_rejected\":{s.postRejected},\"hazard_cases\":{s.hazardCases},\"reset_cycle_write_divergences\":{s.resetCycleDivergences},\"hist\":\{{hist}}}"
+  IO.println s!"SUMMARY \{\"cases\":{s.cases},\"cycles\":{s.cycles},\"ops\":{s.ops},\"diffs\":{s.diffs},\"propfails\":{s.propfails},\"async_compared\":{s.asyncCmp},\"port_inputs_compared\":{s.portInCmp},\"pre_pins_compared\":{s.preCmp},\"post_pins_compared\":{s.postCmp},\"read_after_write_collisions\":{s.rawCollisions},\"write_write_collisions\":{s.wwCollisions},\"undefined_port_inputs\":{s.undefInputs},\"out_of_range_accesses\":{s.outOfRange},\"spec_skipped_cases\":{s.specSkipped},\"post_rejected\":{s.postRejected},\"hazard_cases\":{s.hazardCases},\"reset_cycle_write_divergences\":{s.resetCycleDivergences},\"hist\":\{{hist}}}"
